@@ -12,6 +12,11 @@ From KV Require Import Base Wire.
 Import ListNotations.
 Open Scope Z_scope.
 
+(** a Go call returned normally: with a value or an error - it did not panic and the model's
+    fuel sufficed *)
+Definition returns {A} (r : res A) : Prop :=
+  match r with Ok _ | Err => True | Panic | OutOfFuel => False end.
+
 (** a Coq string literal as a byte list (ASCII only is used) *)
 Definition str (s : string) : list Z := map (fun c => Z.of_N (N_of_ascii c)) (list_ascii_of_string s).
 
